@@ -205,6 +205,7 @@ def observe_loader_case(case, workdir):
                 ref = canon_onto(loader(paths[j], term_factory=tf, graph_factory=CsrIndexedGraphFactory()))
                 if ref != again[j]:
                     direct.append(f'{loader.__name__}: document {j} through the shared default factories differs from a load with fresh factories')
+        direct += onto_history(case['docs'][0], workdir)
         hpo = hpotk.load_minimal_ontology(paths[0])
         hl = SimpleHpoaDiseaseLoader(hpo)
         hp = []
@@ -251,6 +252,91 @@ def observe_loader_case(case, workdir):
         for p in paths:
             os.remove(p)
     return {'direct': direct, 'hpoa_table': table}
+
+
+def run_onto_query(o, q):
+    try:
+        if q[0] == 'get':
+            x = {'str': lambda v: v, 'tid': TermId.from_curie, 'term': lambda v: MinimalTerm.create_minimal_term(TermId.from_curie(v), 'n', [], False)}[q[1]](q[2])
+            t = o.get_term(x)
+            return None if t is None else [t.identifier.value, t.name, sorted(a.value for a in t.alt_term_ids), t.is_obsolete]
+        if q[0] == 'in':
+            return TermId.from_curie(q[1]) in o
+        if q[0] == 'name':
+            return o.get_term_name(q[1])
+        if q[0] == 'len':
+            return len(o)
+        if q[0] == 'terms':
+            return [t.identifier.value for t in o.terms]
+        if q[0] == 'term_ids':
+            return [t.value for t in o.term_ids]
+        if q[0] == 'version':
+            return o.version
+        if q[0] == 'root':
+            return o.graph.root.value
+        if q[0] == 'anc':
+            return sorted(t.value for t in o.graph.get_ancestors(q[1]))
+        if q[0] == 'desc':
+            return sorted(t.value for t in o.graph.get_descendants(q[1]))
+        raise AssertionError(q)
+    except AssertionError:
+        raise
+    except Exception as e:
+        return 'raised ' + exn_name(e)
+
+
+def onto_history(doc, workdir):
+    """ontology-level purity: every ontology query (lookups of present / alternate / obsolete / absent ids in the three
+    argument forms, membership, names, len, the two listings, version, root, closures) is asked on three freshly loaded
+    copies - in a fixed order, in the reverse order, and in a shuffled order while a `term_ids` and a `terms` iterator are
+    open - and must answer the same; the open iterators must finish with exactly the listing of a fresh ontology"""
+    doc = json.loads(json.dumps(doc))
+    g = doc['graphs'][0]
+    ids = [n['id'].rsplit('/', 1)[1].replace('_', ':') for n in g['nodes']]
+    alts = [n['meta']['basicPropertyValues'][0]['val'] for n in g['nodes'] if n.get('meta', {}).get('basicPropertyValues')]
+    prefix = ids[0].split(':')[0]
+    gone = prefix + ':0000777'
+    g['nodes'].append({'id': impl_C16.PURL + gone.replace(':', '_'), 'lbl': 'gone', 'type': 'CLASS', 'meta': {'deprecated': True}})
+    absent = [prefix + ':9999999', prefix + ':0000000', 'QQ:0000001', ids[0] + '0', alts[0][:-1] if alts else prefix + ':1']
+    qs = []
+    for x in ids[:4] + alts[:3] + absent + [gone]:
+        qs += [['get', f, x] for f in ('str', 'tid', 'term')] + [['in', x], ['name', x]]
+    qs += [['len'], ['terms'], ['term_ids'], ['version'], ['root'], ['anc', ids[-1]], ['desc', ids[0]]]
+    p = os.path.join(workdir, 'onto%d.json' % os.getpid())
+    with open(p, 'w', encoding='utf-8') as fh:
+        json.dump(doc, fh)
+    problems = []
+    try:
+        for loader in (hpotk.load_minimal_ontology, hpotk.load_ontology):
+            o1, o2, o3 = loader(p), loader(p), loader(p)
+            ref = [run_onto_query(o1, q) for q in qs]
+            rev = [run_onto_query(o2, q) for q in reversed(qs)][::-1]
+            for q, a, b in zip(qs, ref, rev):
+                if a != b:
+                    problems.append(f'{loader.__name__}: ontology query {q} answers {a!r} in one order of the queries and {b!r} in the reverse order')
+                    break
+            solo_ids, solo_terms = run_onto_query(loader(p), ['term_ids']), run_onto_query(loader(p), ['terms'])
+            it_ids, it_terms = iter(o3.term_ids), iter(o3.terms)
+            got_ids, got_terms = [next(it_ids).value], [next(it_terms).identifier.value]
+            order = list(range(len(qs)))
+            random.Random(len(qs)).shuffle(order)
+            for k in order:
+                a = run_onto_query(o3, qs[k])
+                if a != ref[k]:
+                    problems.append(f'{loader.__name__}: ontology query {qs[k]} answers {a!r} after other queries with open listing iterators, {ref[k]!r} on a fresh ontology')
+                    break
+            try:
+                got_ids += [t.value for t in it_ids]
+                got_terms += [t.identifier.value for t in it_terms]
+            except Exception as e:
+                problems.append(f'{loader.__name__}: ontology query: an open term_ids / terms iterator broke after other queries ran: {exn_name(e)}')
+            else:
+                if got_ids != solo_ids or got_terms != solo_terms:
+                    problems.append(f'{loader.__name__}: ontology query: a listing iterator opened before other queries ran yields {got_ids if got_ids != solo_ids else got_terms!r}, '
+                                    f'a fresh ontology lists {solo_ids if got_ids != solo_ids else solo_terms!r}')
+    finally:
+        os.remove(p)
+    return problems[:3]
 
 
 HPOA_CONFIGS = [(50, False), (10, True), (50, True), (10, False), (7, True)]      # first and last differ in both parameters
